@@ -88,8 +88,15 @@ let quiet st =
 let () =
   let ic = open_in Sys.argv.(1) in
   let hists = ref 0 and steps = ref 0 and bad = ref 0 and modelprop = ref 0 in
+  let end_seen = ref None in
   (try while true do
       let line = input_line ic in
+      if String.length line >= 4 && String.sub line 0 4 = "END " then begin
+        (match String.split_on_char ' ' line with
+         | [_; h; st] -> end_seen := Some (int_of_string h, int_of_string st)
+         | _ -> end_seen := Some (-1, -1));
+        raise End_of_file
+      end;
       incr hists;
       let st = ref init in
       let flagged = ref false in
@@ -112,4 +119,9 @@ let () =
             st := st'
           end) (String.split_on_char ' ' line)
     done with End_of_file -> ());
-  Printf.printf "HISTORIES %d STEPS %d MISMATCHES %d MODELPROP %d\n" !hists !steps !bad !modelprop
+  (* the case file must end with the harness's END marker and the counts must agree: a truncated
+     or empty file is not a clean comparison *)
+  let end_status = match !end_seen with
+    | None -> "missing"
+    | Some (h, st) -> if h = !hists && st = !steps then "ok" else Printf.sprintf "bad(%d,%d)" h st in
+  Printf.printf "HISTORIES %d STEPS %d MISMATCHES %d MODELPROP %d END %s\n" !hists !steps !bad !modelprop end_status
